@@ -285,6 +285,7 @@ def check(pid, tier, seed):
 
     stats = {"evaluations": 0, "distinct": set(), "nontrivial": set(), "by_stream": {}, "samples": [],
              "outcomes": {}}
+    stats_order = 0
     if model_ok:
         facts = json.load(open(facts_path))
         rng = random.Random(seed)
@@ -305,9 +306,28 @@ def check(pid, tier, seed):
                     impl[i], margs = c.post(impl[i])
                     mlines[i] = "\t".join([c.fn, *margs]) if margs is not None else "noop"
             model = run_model(mlines)
+            # the same calls once more, in the opposite order, in a fresh process: what a call returns may not depend
+            # on what was asked before (a verdict memoised under too small a key, scratch state, a mutated registry)
+            idx = [i for i, c in enumerate(cases) if c.post is None and c.fn not in props.ORDER_SENSITIVE][:150000]
+            if idx and pid not in ("C14",):
+                back = run_impl([lines[i] for i in reversed(idx)], facts_path)
+                for i, b2 in zip(reversed(idx), back):
+                    if b2 != impl[i]:
+                        c = cases[i]
+                        violations.append({"property": pid, "kind": "history", "stream": c.tag, "check": "order", "call": c.fn,
+                                           "args": c.args, "args_shown": [props.show_arg(x) for x in c.args],
+                                           "observed_implementation": b2 + "   (same stream of calls in the opposite order)",
+                                           "expected_by_spec": impl[i] + "   (what the call returned in the first order)",
+                                           "seed": seed})
+                        if len(violations) >= 5:
+                            break
+                stats_order = len(idx)
+            else:
+                stats_order = 0
         except Exception as e:  # noqa: BLE001
             broken.append({"what": "harness", "detail": str(e)[-600:]})
             impl = model = []
+            stats_order = 0
         seen_v = set()
         for c, a, m in zip(cases, impl, model):
             stats["evaluations"] += 1
@@ -398,6 +418,7 @@ def check(pid, tier, seed):
             "samples": stats["samples"] or [{"note": "no cases were run (model build failed)"}],
             "streams": stats["by_stream"],
             "outcome_histogram": stats["outcomes"],
+            "order_replay_calls": stats_order,
             "translator": {"changed": tr.get("changed", []), "drift": drift},
             "effective_tier": eff_tier,
             "broken": broken,
